@@ -361,6 +361,19 @@ def addon_layer(draw):
     return [f'addons{n}'], blk
 
 
+def _fix_ptc(draw, params):
+    """a PTC duration beyond the plant lifetime crashes the schedule builder (rejected input, and outside C16's
+    quantifier 'durations 0..lifetime'): construct durations inside the lifetime instead of rejecting"""
+    pd = dict((n, v) for n, v in params)
+    if any(n.startswith('Production Tax Credit') for n in pd):
+        life = int(float(pd.get('Plant Lifetime', '30')))
+        dur = int(float(pd.get('Production Tax Credit Duration', '10')))
+        if dur > life or 'Production Tax Credit Duration' not in pd:
+            if draw(st.integers(0, 9)) != 0:
+                params = merge(params, [['Production Tax Credit Duration', str(draw(st.integers(0, life)))]])
+    return params
+
+
 @st.composite
 def configs(draw, reservoirs=('4', '3'), slow_fraction=0.0, max_steps=2000, addons=0.0, examples=0.15,
             costs=True, prices=True, sdac=0.0):
@@ -383,6 +396,7 @@ def configs(draw, reservoirs=('4', '3'), slow_fraction=0.0, max_steps=2000, addo
             l2, b2 = draw(price_layer())
             params = merge(params, b2)
             labels += l2
+        params = _fix_ptc(draw, params)
         return {'family': f'example:{ex}', 'params': params, 'labels': labels}
     sl, sb = draw(surface_blocks())
     rl, rb = draw(reservoir_blocks(models=reservoirs, slow_fraction=slow_fraction,
@@ -406,6 +420,10 @@ def configs(draw, reservoirs=('4', '3'), slow_fraction=0.0, max_steps=2000, addo
         l2, b2 = draw(addon_layer())
         params = merge(params, b2)
         labels += l2
+        if draw(st.integers(0, 6)) != 0:
+            # the add-on report writer aborts (sys.exit) unless construction years == 1: keep most add-on cases runnable
+            params = drop_param(params, 'Construction Years')
+    params = _fix_ptc(draw, params)
     if sdac and draw(st.floats(0, 1)) < sdac:
         params = merge(params, SDAC)
         labels.append('sdac')
